@@ -164,9 +164,21 @@ def check_case(case, ctx):
             key = "gene_list" if entity == "gene" else "reaction_list"
             if double:
                 items = items[:4]
-                ref = deletion_rows(f(model, **{key + "1": sorted(items), key + "2": sorted(items)}, processes=1))
+                # two different, overlapping lists (the request is the set of unordered pairs of their product); the order
+                # inside each list and the order of the two lists must not matter
+                l1, l2 = items[: len(items) // 2 + 1], items[len(items) // 2:]
+                if case["processes"] % 2:
+                    l1, l2 = items, list(reversed(items))
+                ref = deletion_rows(f(model, **{key + "1": sorted(l1), key + "2": sorted(l2)}, processes=1))
                 with sched.controlled(module, task, case["delays"], case["chunk"], record):
-                    got = deletion_rows(f(model, **{key + "1": items, key + "2": list(reversed(items))}, processes=case["processes"]))
+                    got = deletion_rows(f(model, **{key + "1": l1, key + "2": list(reversed(l2))}, processes=case["processes"]))
+                want_keys = {"|".join(sorted({a, b})) for a in l1 for b in l2}
+                if set(ref) != want_keys:
+                    _v("deletion:row-set", f"serial rows {sorted(ref)} but the product of {sorted(l1)} and {sorted(l2)} is {sorted(want_keys)}")
+                swapped = deletion_rows(f(model, **{key + "1": l2, key + "2": l1}, processes=1))
+                if set(swapped) != set(ref) or any(not close(swapped[k][0], ref[k][0]) or swapped[k][1] != ref[k][1] for k in ref):
+                    _v("deletion:list-order-dependent", f"lists ({l1}, {l2}) give rows {sorted(ref.items())}, swapped they give {sorted(swapped.items())}")
+                classes.append("double-two-lists" if set(l1) != set(l2) else "double-same-lists")
             else:
                 ref = deletion_rows(f(model, **{key: sorted(items)}, processes=1))
                 with sched.controlled(module, task, case["delays"], case["chunk"], record):
@@ -186,6 +198,13 @@ def check_case(case, ctx):
                     alone = deletion_rows(f(model, **{key: ids}, processes=1))[k]
                     if not close(g, alone[0]):
                         _v("deletion:differs-from-single-item-call", f"knock-out {ids}: {g!r} in the batch, {alone[0]!r} when asked alone")
+                else:
+                    a, b = (ids[0], ids[-1]) if ids[0] in l1 and ids[-1] in l2 else (ids[-1], ids[0])
+                    alone = deletion_rows(f(model, **{key + "1": [a], key + "2": [b]}, processes=1))
+                    if set(alone) != {k}:
+                        _v("deletion:differs-from-single-item-call", f"asking for the pair ([{a}], [{b}]) alone returns rows {sorted(alone)}, expected [{k}]")
+                    if not close(g, alone[k][0]):
+                        _v("deletion:differs-from-single-item-call", f"knock-out {ids}: {g!r} in the batch, {alone[k][0]!r} when asked alone")
             varied = len({(None if v[0] != v[0] else round(v[0], 6)) for v in got.values()}) > 1
     d = observe.diff(before, observe.snapshot(model), limit=4)
     if d:
